@@ -630,6 +630,7 @@ func runC05(c *Ctx, pr *PropertyRun) {
 	// in place per entry keeps what the previous entry had (a collection
 	// after a file carries the file's size, type and tag)
 	freshHolderRule(c, pr, "C05")
+	streamedLengthRule(c, pr, "C05")
 	truncateRule(c, pr, "C05", nil)
 
 	urlParseRule(c, pr, "C05", nil)
@@ -1513,4 +1514,93 @@ func unquoteModel(in *Interp, site ssa.CallInstruction, name string, args []Val)
 		return Tuple{[]Val{SymStr{Key: "unquoted(" + k + ")"}, kNil}}, true
 	}
 	return nil, false
+}
+
+// streamedLengthRule: when the file server streams a body itself (what Open
+// returned cannot seek, so http.ServeContent is not used), it has announced
+// the length first. Without Content-Length the response is chunked, a read
+// error half-way ends it like a complete one, and the client's Open returns a
+// shortened body with a clean EOF: not "exactly the backend's bytes".
+func streamedLengthRule(c *Ctx, pr *PropertyRun, prop string) {
+	p := c.P
+	r := NewRule(prop, prop+".streamed-length", "every io.Copy of a stored body to the ResponseWriter is dominated by Header().Set(\"Content-Length\", …) (E4)")
+	pr.Rules = append(pr.Rules, r)
+	for _, fn := range p.ModFns {
+		if !inLib(fn) || len(fn.Blocks) == 0 || fnPkg(fn).Path() != pkgWebdav {
+			continue
+		}
+		var sets []ssa.CallInstruction
+		isLenSet := func(cc *ssa.CallCommon) bool {
+			if n := calleeName(cc); (n == "(net/http.Header).Set" || n == "(net/http.Header).Add") && len(cc.Args) == 3 {
+				if k, ok := constString(cc.Args[1]); ok && strings.EqualFold(k, "Content-Length") {
+					return true
+				}
+			}
+			return false
+		}
+		// a helper of the module that sets the length on every path through it
+		setsAlways := func(g *ssa.Function) bool {
+			if g == nil || !inLib(g) || len(g.Blocks) == 0 {
+				return false
+			}
+			found := false
+			eachCall(g, func(s2 ssa.CallInstruction) {
+				if !isLenSet(s2.Common()) {
+					return
+				}
+				all := true
+				for _, b := range g.Blocks {
+					if _, isRet := b.Instrs[len(b.Instrs)-1].(*ssa.Return); isRet && b != g.Recover && !s2.Block().Dominates(b) {
+						all = false
+					}
+				}
+				if all {
+					found = true
+				}
+			})
+			return found
+		}
+		eachCall(fn, func(site ssa.CallInstruction) {
+			if isLenSet(site.Common()) || setsAlways(site.Common().StaticCallee()) {
+				sets = append(sets, site)
+			}
+		})
+		eachCall(fn, func(site ssa.CallInstruction) {
+			cc := site.Common()
+			if n := calleeName(cc); n != "io.Copy" && n != "io.CopyBuffer" && n != "io.CopyN" {
+				return
+			}
+			// destination: the ResponseWriter parameter
+			dst := cc.Args[0]
+			if ci, ok := dst.(*ssa.ChangeInterface); ok {
+				dst = ci.X
+			}
+			if mi, ok := dst.(*ssa.MakeInterface); ok {
+				dst = mi.X
+			}
+			prm, ok := dst.(*ssa.Parameter)
+			if !ok || !isNamedType(prm.Type(), "net/http", "ResponseWriter") {
+				return
+			}
+			r.Role("streamed-body")
+			ok = false
+			for _, st := range sets {
+				if st.Block() == site.Block() {
+					ok = ok || instrIndex(st) < instrIndex(site)
+				} else if st.Block().Dominates(site.Block()) {
+					ok = true
+				}
+			}
+			r.Ob(ok)
+			if !ok {
+				r.Violation("no-length|"+fnKey(fn), p.instrPos(site), fmt.Sprintf("%s streams a stored body to the client with no Content-Length set on every path before it: the response is chunked, and a read error in the middle ends it exactly like a complete body — the client reads fewer bytes than the backend stores, without an error", fnKey(fn)), nil)
+			}
+		})
+	}
+	r.RequireRole("streamed-body")
+}
+
+func isNamedType(t types.Type, pkg, name string) bool {
+	n := namedOf(t)
+	return n != nil && n.Obj().Pkg() != nil && n.Obj().Pkg().Path() == pkg && n.Obj().Name() == name
 }
